@@ -639,7 +639,7 @@ theorem extractEuler_inverts_setRotation (tmin r : ℝ) (hr : r ∈ Set.Ico (-Re
     rw [neg_eq_iff_eq_neg]; exact atan2R_eq_neg 1 r one_pos hr (by ring) (by ring)
 
 /-- the principal ranges are inhabited: a concrete non-trivial triple for a non-repeated and a repeated order -/
-example : principal .YZX ⟨1, -1 / 2, -3 / 2⟩ ∧ principal .ZXZr ⟨-3 / 2, -1, 1⟩ := by
+theorem nonvacuity_principal : principal .YZX ⟨1, -1 / 2, -3 / 2⟩ ∧ principal .ZXZr ⟨-3 / 2, -1, 1⟩ := by
   have := Real.two_le_pi
   refine ⟨⟨⟨by linarith, by linarith⟩, ⟨by linarith, by linarith⟩, ?_⟩, ⟨⟨by linarith, by linarith⟩, ⟨by linarith, by linarith⟩, ?_⟩⟩
   · simp only [Ord.repeated_table, if_false, Bool.false_eq_true]; constructor <;> linarith
@@ -648,7 +648,7 @@ example : principal .YZX ⟨1, -1 / 2, -3 / 2⟩ ∧ principal .ZXZr ⟨-3 / 2, 
 /-! ## 7. Non-vacuity: the real functions satisfy the hypotheses -/
 
 /-- on ℝ with the real sine and cosine: quaternion, matrix and spec agree for all 24 orders -/
-example (o : Ord) (a : V3 ℝ) :
+theorem nonvacuity_real_sin_cos (o : Ord) (a : V3 ℝ) :
     Gen.Euler.Quat_toMatrix33 (toQuat o Real.sin Real.cos a) = toM33 o Real.sin Real.cos a
     ∧ (toM33 o Real.sin Real.cos a).toMat = eulerMat o Real.sin Real.cos a
     ∧ (toM33 o Real.sin Real.cos a).toMat.det = 1 :=
@@ -657,11 +657,11 @@ example (o : Ord) (a : V3 ℝ) :
    (toMatrix33_orthonormal_det_one o _ _ a real_hsc).2.2⟩
 
 /-- the flip identity with the true π -/
-example (a : V3 ℝ) : toM33 .ZXY Real.sin Real.cos ⟨Real.pi + a.x, Real.pi - a.y, Real.pi + a.z⟩ = toM33 .ZXY Real.sin Real.cos a :=
+theorem nonvacuity_flip_real (a : V3 ℝ) : toM33 .ZXY Real.sin Real.cos ⟨Real.pi + a.x, Real.pi - a.y, Real.pi + a.z⟩ = toM33 .ZXY Real.sin Real.cos a :=
   flip_same_rotation .ZXY rfl _ _ Real.pi a real_hodd real_heven real_hsp real_hcp real_hsm real_hcm
 
 /-- `makeNear` with the model of `angleMod`, for functions whose half period is exactly the double `M_PI` -/
-example (a t : V3 ℝ) :
+theorem nonvacuity_makeNear (a t : V3 ℝ) :
     toM33 .YXZ sinM cosM (makeNear .YXZ (Model.Euler.angleMod truncF mpi) a t).1 = toM33 .YXZ sinM cosM a
     ∧ |(makeNear .YXZ (Model.Euler.angleMod truncF mpi) a t).1.x - t.x| ≤ mpi :=
   ⟨(makeNear_preserves_rotation .YXZ rfl sinM cosM _ a t sinM_cosM_hyps.2.1 sinM_cosM_hyps.2.2.1 sinM_cosM_hyps.2.2.2.1
@@ -669,12 +669,11 @@ example (a t : V3 ℝ) :
       sinM_cosM_angleMod_hyps.1 sinM_cosM_angleMod_hyps.2.1).1,
    (makeNear_within_pi .YXZ _ a t sinM_cosM_angleMod_hyps.2.2).1⟩
 
-/-- a concrete non-trivial instance: order YZX, angles (1/2, 1/3, 1/5), over ℚ with "sin/cos" read off a
-    rational point table is not needed — the theorems quantify over all `sin`, `cos`; here the slots -/
-example : toXYZ .YZX (⟨1, 2, 3⟩ : V3 ℚ) = ⟨3, 1, 2⟩ ∧ setXYZ .YZX (⟨0, 0, 0⟩ : V3 ℚ) ⟨3, 1, 2⟩ = ⟨1, 2, 3⟩ := by
+/-- a concrete instance of the slot permutations: order YZX (first angle about Y, second about Z, third about X) -/
+theorem nonvacuity_slots_YZX : toXYZ .YZX (⟨1, 2, 3⟩ : V3 ℚ) = ⟨3, 1, 2⟩ ∧ setXYZ .YZX (⟨0, 0, 0⟩ : V3 ℚ) ⟨3, 1, 2⟩ = ⟨1, 2, 3⟩ := by
   constructor <;> rfl
 
 /-- `angleMod` model on a concrete input: 7 ↦ 7 − 2·(22/7) with pi := 22/7 -/
-example : Model.Euler.angleMod Model.Euler.ratTrunc (22 / 7 : ℚ) 7 = 7 - 44 / 7 := by decide +kernel
+theorem nonvacuity_angleMod : Model.Euler.angleMod Model.Euler.ratTrunc (22 / 7 : ℚ) 7 = 7 - 44 / 7 := by decide +kernel
 
 end ImathVerif.C11
